@@ -4,14 +4,14 @@
 From Gv Require Import lib.Bytes lib.Json lib.Gql lib.Exec lib.ExtractAnchor
      C01.ProofsBase C01.ProofsSplit C01.ProofsSim C01.ProofsJoin C01.ProofsTwoStep C01.ProofsCtxBase C01.ProofsCtx
      C01.ProofsTwoStepWf C01.ProofsPlanAlg C01.ProofsPlan C01.ProofsPlanOk C01.ProofsDedup C01.ProofsListHop
-     C01.ProofsTvStatic C01.ProofsTvDefs C01.ProofsTvHidden C01.ProofsPlanGen C01.ProofsPlan2 C01.ProofsTvMain C01.ProofsFuelSuff C01.ProofsPlan3 C01.ProofsPlan3Main.
+     C01.ProofsTvStatic C01.ProofsTvDefs C01.ProofsTvHidden C01.ProofsPlanGen C01.ProofsPlan2 C01.ProofsTvMain C01.ProofsFuelSuff C01.ProofsSelMerge C01.ProofsPlan3 C01.ProofsPlan3Main.
 Require Import ExtrOcamlBasic.
 Extraction Language OCaml.
 Extraction "model.ml" extraction_anchor json_eqb execute find_entity doc_size
   tv2_static_b plan2_static_b field2_static_b fetch2_static_b order_ok_b
   univ2_contract_b ent_contract_b univ_ok_b key_consistent
   tv3_static_b rfield3_static_b pt_static_b item_static_b fetches_static_b univ3_contract_b univ_contract_b lists_ok_b ds_need
-  client_doc3 model_requests3 model_requests3s gateway3 tv4_static_b univ4_contract_b types_ok_b flatten type_applies abs_fuel find_alt flat_is has_tn_sel item_key drop_tn mono_client3 src_proj pt_proj pt_client item_unaliased fetch_keys field_ty_ok plain_field sel_nospread
+  client_doc3 model_requests3 model_requests3s gateway3 tv4_static_b univ4_contract_b types_ok_b flatten type_applies abs_fuel find_alt flat_is flat_merged_is has_tn_sel item_key drop_tn gmerge mono_client3 src_proj pt_proj pt_client item_unaliased fetch_keys field_ty_ok plain_field sel_nospread
   client_doc2 model_requests2 gateway2 mono_client2 mono_ab2 plan2_fuel
   repr_from key_names pvars root_sel2 d2_key d2_selA d2_selB sub_at shape_ty
   dedup collect_reprs
